@@ -1,5 +1,285 @@
-import Banyan.Model.Util
-open Banyan
+import Banyan.Model.C20
+open Banyan Banyan.C20
 
-/- stub: model driver for C20 not built yet -/
-def main : IO Unit := runDriver fun _ => "bad-op"
+/-! Model driver for C20. Reads the canonical template AST printed by the Go driver (the participle parser is
+    trusted), runs the model's `bind` / `prepare` / `Prepared.bind` and prints the same dump format. -/
+
+/-- generic term of the dump format: `name(arg,arg,…)` or a bare atom. -/
+inductive Tree where
+  | node (name : String) (args : List Tree)
+  deriving Inhabited
+
+partial def parseTree (cs : List Char) : Option (Tree × List Char) :=
+  let name := cs.takeWhile fun c => c != '(' && c != ',' && c != ')'
+  let rest := cs.dropWhile fun c => c != '(' && c != ',' && c != ')'
+  match rest with
+  | '(' :: ')' :: r => some (.node (String.ofList name) [], r)
+  | '(' :: r =>
+    let rec args (cs : List Char) (acc : List Tree) : Option (List Tree × List Char) :=
+      match parseTree cs with
+      | none => none
+      | some (t, ',' :: r) => args r (t :: acc)
+      | some (t, ')' :: r) => some ((t :: acc).reverse, r)
+      | some _ => none
+    match args r [] with
+    | some (as, r) => some (.node (String.ofList name) as, r)
+    | none => none
+  | r => some (.node (String.ofList name) [], r)
+
+def parseTreeAll (s : String) : Option Tree :=
+  match parseTree s.toList with
+  | some (t, []) => some t
+  | _ => none
+
+def hexTail (s : String) : Option Str := bytesOfHexChars (s.toList.drop 1)
+
+def atomValue (s : String) : Option Value :=
+  match s.toList with
+  | ['n'] => some .null
+  | 's' :: r => (bytesOfHexChars r).map .str
+  | 'i' :: r => (String.ofList r).toInt?.map .int
+  | 'p' :: r => (String.ofList r).toNat?.map .param
+  | _ => none
+
+def atomTime (s : String) : Option TimeValue :=
+  match s.toList with
+  | 's' :: r => (bytesOfHexChars r).map .str
+  | 'i' :: r => (String.ofList r).toInt?.map .int
+  | 'p' :: r => (String.ofList r).toNat?.map .param
+  | _ => none
+
+def atomCount (s : String) : Option Count :=
+  match s.toList with
+  | 'c' :: r => (String.ofList r).toInt?.map .lit
+  | 'p' :: r => (String.ofList r).toNat?.map .param
+  | _ => none
+
+def atomH (s : String) : Option Str :=
+  match s.toList with
+  | 'h' :: r => bytesOfHexChars r
+  | _ => none
+
+def atomOptH (s : String) : Option (Option Str) :=
+  if s == "_" then some none else (atomH s).map some
+
+def treeValue : Tree → Option Value
+  | .node s [] => atomValue s
+  | _ => none
+
+def treeMulti : Tree → Option Multi
+  | .node "one" [v] => (treeValue v).map .single
+  | .node "arr" vs => (vs.mapM treeValue).map .array
+  | _ => none
+
+def treeTimeV : Tree → Option TimeValue
+  | .node s [] => atomTime s
+  | _ => none
+
+def treeOptCount : Tree → Option (Option Count)
+  | .node "_" [] => some none
+  | .node s [] => (atomCount s).map some
+  | _ => none
+
+def treeTime : Tree → Option (Option TimeClause)
+  | .node "_" [] => some none
+  | .node "tc" [.node op [], v] => do
+    let o ← atomH op
+    let tv ← treeTimeV v
+    pure (some (.cmp o tv))
+  | .node "tb" [b, e] => do
+    let b ← treeTimeV b
+    let e ← treeTimeV e
+    pure (some (.between b e))
+  | _ => none
+
+mutual
+partial def treePred : Tree → Option Pred
+  | .node "par" [e] => (treeOr e).map .paren
+  | .node "cmp" [.node i [], .node o [], v] => do
+    pure (.compare (← atomH i) (← atomH o) (← treeValue v))
+  | .node "mat" [.node i [], m, .node a [], .node o []] => do
+    pure (.matchP (← atomH i) (← treeMulti m) (← atomOptH a) (← atomOptH o))
+  | .node "in" (.node i [] :: .node n [] :: vs) => do
+    pure (.inP (← atomH i) (n == "1") (← vs.mapM treeValue))
+  | .node "hav" [.node i [], .node n [], m] => do
+    pure (.having (← atomH i) (n == "1") (← treeMulti m))
+  | _ => none
+partial def treeAnd : Tree → Option AndExpr
+  | .node "and" ps => do
+    let ps ← ps.mapM treePred
+    match ps.reverse with
+    | [] => none
+    | last :: revInit => pure (revInit.foldl (fun acc p => AndExpr.cons p acc) (AndExpr.one last))
+  | _ => none
+partial def treeOr : Tree → Option OrExpr
+  | .node "or" as => do
+    let as ← as.mapM treeAnd
+    match as.reverse with
+    | [] => none
+    | last :: revInit => pure (revInit.foldl (fun acc a => OrExpr.cons a acc) (OrExpr.one last))
+  | _ => none
+end
+
+def treeGrammar : Tree → Option Grammar
+  | .node "sel" [.node hdr [], topn, time, wh, .node mid [], lim, off, .node b []] => do
+    let w ← (match wh with
+      | .node "_" [] => some none
+      | t => (treeOr t).map some)
+    pure { stmt := .select { hdr := ← atomH hdr, topN := ← treeOptCount topn, time := ← treeTime time, where_ := w,
+                             mid := ← atomH mid, limit := ← treeOptCount lim, offset := ← treeOptCount off },
+           bound := b == "1" }
+  | .node "top" [.node hdr [], .node n [], time, wh, .node tail [], .node b []] => do
+    let w ← (match wh with
+      | .node "_" [] => some none
+      | t => (treeAnd t).map some)
+    pure { stmt := .topN { hdr := ← atomH hdr, n := ← atomCount n, time := ← treeTime time, where_ := w,
+                           tail := ← atomH tail },
+           bound := b == "1" }
+  | _ => none
+
+/-! printing -/
+
+def showValue : Value → String
+  | .str s => "s" ++ hexOfBytes s
+  | .int i => "i" ++ toString i
+  | .null => "n"
+  | .param k => "p" ++ toString k
+
+def showTimeV : TimeValue → String
+  | .str s => "s" ++ hexOfBytes s
+  | .int i => "i" ++ toString i
+  | .param k => "p" ++ toString k
+
+def showCount : Count → String
+  | .lit n => "c" ++ toString n
+  | .param k => "p" ++ toString k
+
+def showOptCount : Option Count → String
+  | none => "_"
+  | some c => showCount c
+
+def showH (s : Str) : String := "h" ++ hexOfBytes s
+
+def showOptH : Option Str → String
+  | none => "_"
+  | some s => showH s
+
+def showMulti : Multi → String
+  | .single v => "one(" ++ showValue v ++ ")"
+  | .array vs => "arr(" ++ ",".intercalate (vs.map showValue) ++ ")"
+
+def showTime : Option TimeClause → String
+  | none => "_"
+  | some (.cmp op v) => "tc(" ++ showH op ++ "," ++ showTimeV v ++ ")"
+  | some (.between b e) => "tb(" ++ showTimeV b ++ "," ++ showTimeV e ++ ")"
+
+mutual
+partial def showPred : Pred → String
+  | .paren e => "par(" ++ showOr e ++ ")"
+  | .compare i o v => "cmp(" ++ showH i ++ "," ++ showH o ++ "," ++ showValue v ++ ")"
+  | .matchP i m a o => "mat(" ++ showH i ++ "," ++ showMulti m ++ "," ++ showOptH a ++ "," ++ showOptH o ++ ")"
+  | .inP i n vs => "in(" ++ ",".intercalate (showH i :: (if n then "1" else "0") :: vs.map showValue) ++ ")"
+  | .having i n m => "hav(" ++ showH i ++ "," ++ (if n then "1" else "0") ++ "," ++ showMulti m ++ ")"
+partial def andList : AndExpr → List String
+  | .one p => [showPred p]
+  | .cons p r => showPred p :: andList r
+partial def showAnd (a : AndExpr) : String := "and(" ++ ",".intercalate (andList a) ++ ")"
+partial def orList : OrExpr → List String
+  | .one a => [showAnd a]
+  | .cons a r => showAnd a :: orList r
+partial def showOr (o : OrExpr) : String := "or(" ++ ",".intercalate (orList o) ++ ")"
+end
+
+def showGrammar (g : Grammar) : String :=
+  let b := if g.bound then "1" else "0"
+  match g.stmt with
+  | .select s =>
+    "sel(" ++ ",".intercalate [showH s.hdr, showOptCount s.topN, showTime s.time,
+      (match s.where_ with
+       | none => "_"
+       | some e => showOr e),
+      showH s.mid, showOptCount s.limit, showOptCount s.offset, b] ++ ")"
+  | .topN t =>
+    "top(" ++ ",".intercalate [showH t.hdr, showCount t.n, showTime t.time,
+      (match t.where_ with
+       | none => "_"
+       | some e => showAnd e),
+      showH t.tail, b] ++ ")"
+
+def showErr : Err → String
+  | .rebind => "ERR:rebind:0"
+  | .count => "ERR:count:0"
+  | .noValue i => "ERR:novalue:" ++ toString i
+  | .bind i .type => "ERR:type:" ++ toString i
+  | .bind i .range => "ERR:range:" ++ toString i
+  | .bind i .empty => "ERR:empty:" ++ toString i
+  | .bind i .ts => "ERR:ts:" ++ toString i
+
+def showSpec : SlotKind → String
+  | .scalar => "S"
+  | .list => "L"
+  | .time => "T"
+  | .count m => "C" ++ toString m
+
+def showResolved : Resolved → String
+  | .vals vs => "v(" ++ ",".intercalate (vs.map showValue) ++ ")"
+  | .time s => "t" ++ hexOfBytes s
+  | .count n => "c" ++ toString n
+
+/-! parameters: `N` nil entry, `V` TagValue without value, `n` null, `s<hex>`, `i<dec>`, `S<n>:<hex>…`, `I<n>:<dec>…`,
+    `t<sec>:<nanos>`, `T` timestamp with nil message, `b<hex>`; `s~ i~ S~ I~` = nil inner message, read by Go through
+    nil-safe getters as "" / 0 / empty. -/
+def parseParam (s : String) : Option ParamVal :=
+  match s.toList with
+  | ['N'] => some .none_
+  | ['V'] => some .none_
+  | ['n'] => some .null
+  | ['s', '~'] => some (.str [])
+  | ['i', '~'] => some (.int 0)
+  | ['S', '~'] => some (.strArr [])
+  | ['I', '~'] => some (.intArr [])
+  | ['T'] => some .tsNil
+  | 's' :: r => (bytesOfHexChars r).map .str
+  | 'i' :: r => (String.ofList r).toInt?.map .int
+  | 'b' :: r => (bytesOfHexChars r).map .bin
+  | 'S' :: r =>
+    match (String.ofList r).splitOn ":" with
+    | n :: es => if n.toNat? == some es.length then (es.mapM fun (e : String) => bytesOfHexChars e.toList).map .strArr else none
+    | [] => none
+  | 'I' :: r =>
+    match (String.ofList r).splitOn ":" with
+    | n :: es => if n.toNat? == some es.length then (es.mapM fun (e : String) => e.toInt?).map .intArr else none
+    | [] => none
+  | 't' :: r =>
+    match (String.ofList r).splitOn ":" with
+    | [a, b] => do pure (.ts (← a.toInt?) (← b.toInt?))
+    | _ => none
+  | _ => none
+
+def parseParams (s : String) : Option (List ParamVal) :=
+  if s == "-" then some [] else (s.splitOn ",").mapM parseParam
+
+def showBind (g : Grammar) (ps : List ParamVal) : String :=
+  match bind g ps with
+  | .ok g' => showGrammar g'
+  | .error e => showErr e
+
+def showOverlay (p : Prepared) (ps : List ParamVal) : String :=
+  match p.bind ps with
+  | .ok ov => "ov(" ++ ",".intercalate (ov.map showResolved) ++ ")"
+  | .error e => showErr e
+
+def handle (line : String) : String :=
+  match words line with
+  | ["ast", _] => "bad-op"
+  | [op, _stmt, ast, _l1, _l2, p1, p2] =>
+    if !op.startsWith "bind" then "bad-op" else
+    match (parseTreeAll ast).bind treeGrammar, parseParams p1, parseParams p2 with
+    | some g, some ps1, some ps2 =>
+      let p := prepare g
+      s!"T={showGrammar g} B1={showBind g ps1} B2={showBind g ps2} PT={showGrammar p.template} " ++
+      s!"SP=sp({",".intercalate (p.specs.map showSpec)}) O1={showOverlay p ps1} O2={showOverlay p ps2}"
+    | _, _, _ => "bad-input"
+  | _ => "bad-op"
+
+def main : IO Unit := runDriver handle
